@@ -54,6 +54,15 @@ where
 
 #[inline]
 pub(crate) fn global_epoch() -> usize {
+    // Yield after the read (i.e. before whatever the caller does with the value); callers yield
+    // before it.
+    #[cfg(feature = "circ_verif")]
+    {
+        let epoch = default_collector().global_epoch().value();
+        vpoint!(EpochRead, 1usize);
+        return epoch;
+    }
+    #[cfg(not(feature = "circ_verif"))]
     default_collector().global_epoch().value()
 }
 
